@@ -92,6 +92,12 @@ CLAIMED = {
         "Seam RT (ssr, reactive_graph/effects). All tasks, including those leptos hands to the thread pool, run on the calling thread's queue when the harness polls. Wired-signal window: either value admitted until the next poll.",
         "DESIGN.md §3 C16",
     ),
+    "C14": (
+        "explicit-state exploration of (URL, locale) under locale-switch sequences plus exhaustive single calls, on the real path functions reached through the verif_hooks feature",
+        "For 7 locale sets (names that are prefixes of each other and of path words), 6 base-path spellings and a route table with static / param / optional / splat / localized segments: get_locale_from_path on every short path against a whole-segment oracle, and a BFS over every sequence of <= 3 (thorough 4) locale switches from every page URL in every locale (with/without query, fragment, route table), each step calling the real get_new_path: only the prefix and the localized segments may change, A->B->A returns the original URL, and the locale read back is the one switched to.",
+        "Seam RT via cargo feature verif_hooks (thin re-exports of the private functions; named in the property's hook_needed). The browser glue (effects, navigate, popstate) needs web_sys and is modelled by the driver; generate_routes/match_nested on real route objects are not yet driven (segment tables are built by hand in the shape generate_routes produces).",
+        "DESIGN.md §3 C14",
+    ),
 }
 
 NOT_YET = "check not built yet in this round (design in DESIGN.md §3); no claim is made"
